@@ -4,7 +4,7 @@ cd /verif
 for id in "$@"; do
   for v in a b; do
     if [ -f /tmp/wt/$id/SEED/$v/patch.diff ]; then
-      echo "=== $id-$v"; python3 tools/seed_eval.py $id /tmp/wt/$id/SEED/$v $id-$v 2>&1 | tail -30
+      echo "=== $id-$v"; python3 tools/seed_eval.py $id ${SEEDSRC:-/tmp/wt/$id/SEED}/$v $id-$v $SEEDFLAGS 2>&1 | tail -30
     fi
   done
 done
